@@ -42,6 +42,9 @@ func DecodeDecrypt(
 			return nil, errors.Wrapf(err, "DecodeDecrypt()")
 		}
 	} else {
+		if len(msg) < message.IKE_HEADER_LEN {
+			return nil, errors.Errorf("DecodeDecrypt(): Received broken IKE header")
+		}
 		ikeMsg.IKEHeader = ikeHeader
 		err = ikeMsg.DecodePayload(msg[message.IKE_HEADER_LEN:])
 		if err != nil {
@@ -49,7 +52,7 @@ func DecodeDecrypt(
 		}
 	}
 
-	if ikeMsg.Payloads[0].Type() == message.TypeSK {
+	if len(ikeMsg.Payloads) > 0 && ikeMsg.Payloads[0].Type() == message.TypeSK {
 		if ikesaKey == nil {
 			return nil, errors.Errorf("IKE decode decrypt: need ikesaKey to decrypt")
 		}
